@@ -1,0 +1,28 @@
+//go:build verif
+
+package jen
+
+import "bytes"
+
+// VerifImport is a copy of one entry of a File's import table.
+type VerifImport struct {
+	Name  string
+	Alias bool
+}
+
+// VerifImports returns a copy of the File's import table (verification hook, read-only).
+func VerifImports(f *File) map[string]VerifImport {
+	out := make(map[string]VerifImport, len(f.imports))
+	for k, v := range f.imports {
+		out[k] = VerifImport{Name: v.name, Alias: v.alias}
+	}
+	return out
+}
+
+// VerifRaw renders c without formatting, registering imports in f exactly as
+// RenderWithFile does before it calls the formatter (verification hook).
+func VerifRaw(c Code, f *File) (string, error) {
+	buf := &bytes.Buffer{}
+	err := c.render(f, buf, nil)
+	return buf.String(), err
+}
